@@ -39,6 +39,18 @@ def gen_blocks(rng, profile):
         n = rng.choice([97, 98, 99, 100, rng.randrange(20, 97)])
         for _ in range(n):
             blocks.append((gen_block_id(rng, used), rstr(rng, rng.randrange(0, 6), PRINT)))
+    elif profile == "ws_aligned":
+        # data with leading / trailing blanks, total length a multiple of 16 so that NO pad block follows: the header
+        # string then ends in a blank
+        total = 0
+        for _ in range(rng.randrange(1, 4)):
+            d = rng.choice([" ", "  ", ""]) + rstr(rng, rng.randrange(0, 12), PRINT) + rng.choice([" ", "   "])
+            blocks.append((gen_block_id(rng, used), d))
+            total += 4 + len(d)
+        fill = (-(total + 4)) % 16
+        blocks.append((gen_block_id(rng, used), rstr(rng, max(0, fill - 1), PRINT) + (" " if fill else "")))
+        if not fill:
+            blocks[-1] = (blocks[-1][0], rstr(rng, 15, PRINT) + " ")
     elif profile == "big":
         total = rng.choice([9984, 9990, 9999, 9800, 9700, 9600])
         budget = total - 16 - 100
@@ -51,7 +63,7 @@ def gen_blocks(rng, profile):
 
 def gen_case(rng, version=None, profile=None, keylen=None, mask="auto", valid_kbpk=True, algorithm=None):
     version = version or rng.choice("ABCD")
-    profile = profile or rng.choice(["none", "none", "few", "few", "boundary", "many", "big"])
+    profile = profile or rng.choice(["none", "none", "few", "few", "boundary", "many", "big", "ws_aligned"])
     if valid_kbpk:
         from harness import gens
         kbpk = gens.key(rng, rng.choice(KBPK_SIZES[version]))
@@ -78,7 +90,7 @@ def impl_header(c):
     h = tr31.Header()
     h.load(c["hdr16"])
     for bid, data in c["blocks"]:
-        h.blocks[bid] = data
+        core.set_block(h.blocks, bid, data)
     return h
 
 
@@ -112,3 +124,168 @@ def impl_unwrap(kbpk, s):
         return ("OK", core.show_header(h), core.show(key))
     except Exception as e:  # noqa: BLE001
         return ("ERR", core.bucket(e))
+
+
+def selfref_cases(rng, per_version=2):
+    """cases whose fields / reserved / block data contain the very digit strings the serialiser writes as length
+    fields (the header-only length that str(header) reports and the final key block length): text-level
+    search-and-replace slips in the serialiser only show on such content"""
+    out = []
+    for v in "ABCD":
+        for prof in ("none", "few", "ws_aligned")[:per_version + 1]:
+            c = gen_case(rng, version=v, profile=prof, keylen=rng.choice([8, 16, 24]), mask=None, algorithm="T")
+            try:
+                h = impl_header(c)
+                L = str(h)[1:5]
+                K = tr31.wrap(c["kbpk"], h, c["key"])[1:5]
+            except Exception:  # noqa: BLE001
+                continue
+            for digits in (L, K):
+                c2 = dict(c)
+                c2["hdr16"] = c["hdr16"][:5] + digits + c["hdr16"][9:]           # key usage + algorithm + mode of use
+                out.append(c2)
+                c3 = dict(c)
+                c3["hdr16"] = c["hdr16"][:9] + digits[:2] + c["hdr16"][11] + c["hdr16"][12:14] + digits[2:]   # version number, reserved
+                out.append(c3)
+                if c["blocks"]:
+                    c4 = dict(c)
+                    bl = list(c["blocks"])
+                    i = rng.randrange(len(bl))
+                    d = bl[i][1]
+                    bl[i] = (bl[i][0], (digits + d[4:]) if len(d) >= 4 else d)
+                    j = rng.randrange(len(bl))
+                    if len(bl[j][1]) >= 8 and j != i:
+                        bl[j] = (bl[j][0], bl[j][1][:-4] + digits)
+                    c4["blocks"] = bl
+                    out.append(c4)
+                else:
+                    c5 = dict(c)
+                    c5["hdr16"] = c["hdr16"][:14] + digits[2:]       # no blocks: count "00" + reserved = the digits when < 100
+                    out.append(c5)
+    return out
+
+
+def threaded_wraps(rng, aspect, rounds=2, nthreads=8, per_thread=24):
+    """ONE KeyBlock per version shared by `nthreads` threads that wrap different keys / masks at overlapping times
+    (switch interval 1e-6).  wrap is documented not to modify the object, so every result must be what a fresh
+    object gives: aspect "roundtrip" (opens to the key and header), "length" (same length as a sequential wrap of the
+    same key and mask), "fresh" (no two outputs and no two recovered paddings equal).  -> (violations, calls)"""
+    import sys
+    import threading
+    from harness import oracles as o
+    viol, calls = [], 0
+    for v in "ABCD":
+        for _ in range(rounds):
+            kbpk = rng.randbytes(rng.choice(KBPK_SIZES[v]))
+            c = gen_case(rng, version=v, profile=rng.choice(["none", "few"]), algorithm=rng.choice("TAH"))
+            kb = tr31.KeyBlock(kbpk, impl_header(c))
+            want_hdr = core.show_header(kb.header)
+            jobs = []
+            for i in range(nthreads * per_thread):
+                kl = rng.choice([8, 16, 24, 5, 32, 40, 1])
+                mask = rng.choice([None, None, 16, 24, 40, 64, kl])
+                jobs.append((rng.randbytes(kl), mask))
+            seq_len = {}
+            for key, mask in jobs:
+                k = (len(key), mask)
+                if k not in seq_len:
+                    try:
+                        seq_len[k] = len(tr31.KeyBlock(kbpk, impl_header(c)).wrap(key, mask))
+                    except Exception as e:  # noqa: BLE001
+                        seq_len[k] = core.bucket(e)
+            outs = [None] * len(jobs)
+
+            def runner(t0):
+                for j in range(t0, len(jobs), nthreads):
+                    try:
+                        outs[j] = kb.wrap(jobs[j][0], jobs[j][1])
+                    except Exception as e:  # noqa: BLE001
+                        outs[j] = e
+
+            old = sys.getswitchinterval()
+            sys.setswitchinterval(1e-6)
+            try:
+                ths = [threading.Thread(target=runner, args=(k,)) for k in range(nthreads)]
+                for th in ths:
+                    th.start()
+                for th in ths:
+                    th.join()
+            finally:
+                sys.setswitchinterval(old)
+            calls += len(jobs)
+            hist = "one KeyBlock (version %s, %d-byte KBPK, %d blocks) shared by %d threads wrapping different keys/masks" % (
+                v, len(kbpk), len(c["blocks"]), nthreads)
+            seen_out, seen_pad = {}, {}
+            for (key, mask), out in zip(jobs, outs):
+                inp = {"history": hist, "kbpk": kbpk.hex(), "hdr16": c["hdr16"], "key_len": len(key), "mask": mask}
+                exp_len = seq_len[(len(key), mask)]
+                if isinstance(out, Exception):
+                    if not isinstance(exp_len, str):
+                        viol.append({"what": "wrap on a shared KeyBlock failed under threads although it succeeds alone", "input": inp,
+                                     "expected": "key block of %d characters" % exp_len, "observed": repr(out)[:160]})
+                    continue
+                if aspect == "length" and len(out) != exp_len:
+                    viol.append({"what": "key block length under concurrent wraps on a shared KeyBlock differs from the sequential length",
+                                 "input": inp, "expected": exp_len, "observed": len(out)})
+                if aspect == "roundtrip":
+                    u = impl_unwrap(kbpk, out)
+                    if u != ("OK", want_hdr, core.show(key)):
+                        viol.append({"what": "key block produced under concurrent wraps on a shared KeyBlock does not open to the key and header",
+                                     "input": inp, "expected": ["OK", want_hdr[:80], core.show(key)[:60]], "observed": [str(x)[:100] for x in u]})
+                if aspect == "fresh":
+                    if out in seen_out:
+                        viol.append({"what": "two concurrent wraps on a shared KeyBlock returned the identical key block", "input": inp,
+                                     "expected": "fresh padding per call", "observed": out[:80]})
+                    seen_out[out] = 1
+                    try:
+                        clear = o.tr31_clear(kbpk, out)
+                        pad = clear[2 + int.from_bytes(clear[:2], "big") // 8:]
+                        if len(pad) >= 6:
+                            if pad in seen_pad:
+                                viol.append({"what": "two concurrent wraps on a shared KeyBlock carry the same random padding", "input": inp,
+                                             "expected": "fresh padding per call", "observed": pad.hex()})
+                            seen_pad[pad] = 1
+                    except Exception:  # noqa: BLE001
+                        pass
+            if core.show_header(kb.header) != want_hdr:
+                viol.append({"what": "concurrent wraps modified the shared KeyBlock's header", "input": {"history": hist},
+                             "expected": want_hdr[:120], "observed": core.show_header(kb.header)[:120]})
+    return viol[:30], calls
+
+
+_BOUNDARY_CACHE = {}
+
+
+def cmac_boundary_kbpks(rng, want=(0x80,), versions="BD"):
+    """KBPKs for versions B / D at the data-dependent corner of CMAC subkey generation (SP 800-38B: K1 = L<<1, xor Rb
+    iff msb(L) = 1; K2 likewise from K1): L = E_K(0) or K1 starts with exactly 0x80 (msb set, nothing else) - for the
+    KBPK itself (its CMAC derives KBEK/KBAK) and for the derived KBAK (its CMAC authenticates the block).  About one
+    key in 256 per target; found by search with the independent reference.  -> [(version, kbpk, label)]"""
+    from harness import oracles as o
+    key = (tuple(want), versions)
+    if key in _BOUNDARY_CACHE:
+        return _BOUNDARY_CACHE[key]
+
+    def dbl(b, bs):
+        n = int.from_bytes(b, "big") << 1
+        if b[0] & 0x80:
+            n ^= 0x1B if bs == 8 else 0x87
+        return (n & ((1 << (8 * bs)) - 1)).to_bytes(bs, "big")
+
+    out = []
+    for v in versions:
+        kind, bs = ("des", 8) if v == "B" else ("aes", 16)
+        for ks in KBPK_SIZES[v]:
+            for which in ("kbpk", "kbak"):
+                for sub in ("L", "K1"):
+                    for val in want:
+                        for _ in range(6000):
+                            kbpk = rng.randbytes(ks)
+                            k = kbpk if which == "kbpk" else o.tr31_derive(v, kbpk)[1]
+                            L = o.E(kind, k, bytes(bs))
+                            x = L if sub == "L" else dbl(L, bs)
+                            if x[0] == val:
+                                out.append((v, kbpk, "%s of the %s starts with 0x%02X" % (sub, which.upper(), val)))
+                                break
+    _BOUNDARY_CACHE[key] = out
+    return out
